@@ -60,7 +60,8 @@ class proxy_info:
             self.proxy_port = options.get("http_proxy_port", 0)
             self.auth = options.get("http_proxy_auth", None)
             self.no_proxy = options.get("http_no_proxy", None)
-            self.proxy_protocol = options.get("proxy_type", "http")
+            # WebSocketApp passes its own default proxy_type=None through
+            self.proxy_protocol = options.get("proxy_type") or "http"
             # Note: If timeout not specified, default python-socks timeout is 60 seconds
             self.proxy_timeout = options.get("http_proxy_timeout", None)
             if self.proxy_protocol not in [
